@@ -68,7 +68,7 @@ func buildC09(c *c09Case) *liveCase {
 
 func kindFamily(kind string) string {
 	switch kind {
-	case "error", "garbage", "noecho", "badxml", "status-error":
+	case "error", "garbage", "noecho", "badxml", "status-error", "warn-error":
 		return "output"
 	case "status":
 		return "status"
@@ -218,7 +218,7 @@ func checkC09(tier, replay string) int {
 	env.BuildRepo(true)
 	rep := ev.New(env, "fault_enumeration")
 	rep.Rule = "For {asa, ios, linux, panos, nsx} x {drc, do-approve} x {approve, compare(do-approve only)} x 3 scenarios: a fault of kind " +
-		"{error text, unexpected output, wrong echo, connection close, stall beyond timeout | HTTP 500, HTTP 403, close, malformed body, status=error, stall, commit job FAIL, PEND..FAIL} " +
+		"{error text, unexpected output, tolerated notice lines followed by an error line (ASA/IOS change commands), wrong echo, connection close, stall beyond timeout | HTTP 500, HTTP 403, close, malformed body, status=error, stall, commit job FAIL, PEND..FAIL} " +
 		"is injected at every ordinal position of the reference dialogue (login, terminal setup, hostname, retrieval, each change command incl. second half of joined lines, save/commit, job poll), " +
 		"plus IOS write-memory variants. Oracle after a delivered fault: no later config-change, no later save/commit, exit != 0, do-approve status FAILED (approve) / DIFF (compare), history END: FAILED; " +
 		"converse on every run: status OK only without delivered fault, with all commands accepted and save confirmed. " +
@@ -283,6 +283,10 @@ func checkC09(tier, replay string) int {
 				}
 				if k.typ == "linux" {
 					kinds = append(kinds, "status")
+				}
+				if (k.typ == "asa" || k.typ == "ios") && e.Class == "config-change" {
+					// Tolerated notice lines followed by a refusal.
+					kinds = append(kinds, "warn-error")
 				}
 				for _, kind := range kinds {
 					if kind == "stall" && tier == "quick" && (e.Ord+int(env.Seed))%5 != 0 {
